@@ -419,6 +419,7 @@ def job_token_inductive(ctx, jr, N, C, part='C01'):
                      claim='per-iteration lemmas; composition over the cells of a rendering is an induction argued in DESIGN.md 8.6')
     fname = 'parser::parse_next_value'
     pid = part[:3]
+    if part == 'C09': part = 'C01'          # C09 claims the same transitions: the text its re-serialiser builds is read back by this scanner
     jr.bounds['part'] = {'C01': 'transitions used by the documented rendering (blanks, quotes, plain characters, the five escapes, terminators, comment)',
                          'C08': 'error returns (unterminated quote, backslash followed by anything but the documented letters, at any position)',
                          'C02': 'backslash-dollar-brace is kept as the three characters \\${ (assumption of the C02 harness)',
